@@ -54,9 +54,11 @@ def model_spi(dlg: core.Dialogue, x, nodata, cs, ce):
     return dict(cells=np.array(cells), alpha=core.h2f(t[3]), beta=core.h2f(t[4]), nan_path=NAN_PATH[0] > before)
 
 
-def scipy_spi(x, nodata, cs, ce):
+def scipy_spi(x, nodata, cs, ce, ds=0.0):
     """Independent evaluation of the definition: gamma MLE on the positive values of the window, zero mixture,
-    normal quantile. Returns (values*1000 unrounded with nan at nodata cells, info) or (None, reason)."""
+    normal quantile. Returns (values*1000 unrounded with nan at nodata cells, info) or (None, reason).
+    `ds` is added to the sufficient statistic s = log(mean) - mean(log) before the likelihood equation is solved (interval
+    oracle for float32 input: the compiled float32 loop takes single-precision logarithms)."""
     import scipy.optimize as so
     sc = special()
     x = np.asarray(x, dtype="float64")
@@ -69,7 +71,7 @@ def scipy_spi(x, nodata, cs, ce):
     if p0 > 0.9 or len(np.unique(pos)) < 2:
         return None, "outside the claim (p0 > 0.9 or fewer than two distinct positive values)"
     mean = pos.mean()
-    s = math.log(mean) - np.log(pos).mean()
+    s = math.log(mean) - np.log(pos).mean() + ds
     if not s > 0:
         return None, "s <= 0 (numerically constant)"
     f = lambda a: math.log(a) - float(sc.digamma(a)) - s  # noqa: E731
@@ -82,7 +84,7 @@ def scipy_spi(x, nodata, cs, ce):
     with np.errstate(all="ignore"):
         h = p0 + (1 - p0) * sc.gammainc(a, x[valid] / b)
         out[valid] = 1000.0 * sc.ndtri(h)
-    return out, dict(alpha=a, beta=b, p0=p0)
+    return out, dict(alpha=a, beta=b, p0=p0, s=s, maxlog=float(np.abs(np.log(pos)).max()))
 
 
 def rain_series(rng, n, dtype="float64"):
